@@ -568,6 +568,22 @@ pub fn run(ctx: &Ctx) {
         "value",
     );
 
+    // lists and maps that become a Value through the serializer, after conversions that were refused
+    let hist: Vec<(usize, u8)> = [0usize, 1, 2, 50, 400, 1100, 5000].iter().flat_map(|&n| (0..4u8).map(move |k| (n, k))).collect();
+    ctx.enumerate(
+        "through-the-serializer-and-back",
+        hist.len() as u64,
+        true,
+        |i, acc| {
+            let (n, k) = hist[i as usize];
+            acc.cell(if n == 0 { "serializer:fresh" } else { "serializer:after-refusals" }, true);
+            acc.sample("serializer", || format!("{n} refused conversions of kind {k}, then a list, a nested list and two maps"));
+            catch(|| check_through_serializer(n, k)).unwrap_or_else(|p| Err(Issue::new("convert:panic", format!("a conversion through the serializer panicked: {p}"))))
+        },
+        |i| json!({"through_serializer": [hist[i as usize].0, hist[i as usize].1]}),
+        "serializer-history",
+    );
+
     // collections with a bad element at each position
     let mut colls = vec![];
     for len in 0..=6usize {
@@ -598,7 +614,52 @@ pub fn run(ctx: &Ctx) {
     );
 }
 
+/// Lists and maps of Rust values turned into a Value through the serializer (the way `RuleSet::evaluate` takes its
+/// input) and extracted again, after `rejected` conversions of kind `kind` were refused on the same thread: the round
+/// trip gives back the original however many conversions failed before.
+fn check_through_serializer(rejected: usize, kind: u8) -> Verdict {
+    use reval::value::ser::ValueSerializer;
+    use serde::Serialize;
+    let what = format!("after {rejected} refused conversions of kind {kind}");
+    for k in 0..rejected {
+        let refused = match (kind + (k % 2) as u8) % 4 {
+            0 => vec![vec![vec![u128::MAX]]].serialize(ValueSerializer).is_err(),
+            1 => [(vec![1u8], 1u8)].into_iter().collect::<BTreeMap<Vec<u8>, u8>>().serialize(ValueSerializer).is_err(),
+            2 => [("k".to_string(), vec![Some(u128::MAX)])].into_iter().collect::<BTreeMap<String, Vec<Option<u128>>>>().serialize(ValueSerializer).is_err(),
+            _ => (1u8, ("x", [u128::MAX, 0])).serialize(ValueSerializer).is_err(),
+        };
+        if !refused {
+            return Err(Issue::new("convert:serializer:accepts-out-of-range", format!("a conversion that must be refused (kind {kind}) was accepted, {what}")));
+        }
+    }
+    let list: Vec<i64> = vec![i64::MIN, -1, 0, 1, i64::MAX];
+    let nested: Vec<Vec<String>> = vec![vec!["a".into(), "".into()], vec![], vec!["é".into()]];
+    let map: BTreeMap<String, i32> = [("a".to_string(), i32::MIN), ("".to_string(), 0), ("z".to_string(), i32::MAX)].into_iter().collect();
+    let map_of_lists: BTreeMap<String, Vec<u16>> = [("k".to_string(), vec![0, u16::MAX]), ("e".to_string(), vec![])].into_iter().collect();
+    let fail = |t: &str, why: String| Err(Issue::new(format!("convert:serializer:{t}"), format!("{t} turned into a Value by the serializer and extracted again, {what}: {why}")));
+    match list.serialize(ValueSerializer).map(Vec::<i64>::try_from) {
+        Ok(Ok(back)) if back == list => {}
+        other => return fail("Vec<i64>", format!("{other:?}")),
+    }
+    match nested.serialize(ValueSerializer).map(Vec::<Vec<String>>::try_from) {
+        Ok(Ok(back)) if back == nested => {}
+        other => return fail("Vec<Vec<String>>", format!("{other:?}")),
+    }
+    match map.serialize(ValueSerializer).map(BTreeMap::<String, i32>::try_from) {
+        Ok(Ok(back)) if back == map => {}
+        other => return fail("BTreeMap<String,i32>", format!("{other:?}")),
+    }
+    match map_of_lists.serialize(ValueSerializer).map(HashMap::<String, Vec<u16>>::try_from) {
+        Ok(Ok(back)) if back.iter().collect::<BTreeMap<_, _>>() == map_of_lists.iter().collect::<BTreeMap<_, _>>() => {}
+        other => return fail("map of lists", format!("{other:?}")),
+    }
+    Ok(())
+}
+
 pub fn replay(j: &serde_json::Value) -> Option<Verdict> {
+    if let Some(a) = j.get("through_serializer").and_then(|a| a.as_array()) {
+        return Some(check_through_serializer(a.first()?.as_u64()? as usize, a.get(1)?.as_u64()? as u8));
+    }
     if let Some(t) = j.get("extract").and_then(|x| x.as_str()) {
         let n: i128 = j.get("n")?.as_str()?.parse().ok()?;
         let t = INT_TYPES.iter().find(|x| **x == t)?;
